@@ -34,6 +34,9 @@ type Slicer struct {
 	Through Transparent
 	// MaxNodes bounds the traversal; 0 means 10000.
 	MaxNodes int
+	// ParamArgs, when set, continues the slice of a parameter in the
+	// arguments of the function's callers (interprocedural lifting).
+	ParamArgs func(p *ssa.Parameter) []ssa.Value
 	// Fields adds a "field" origin (name "Type.Field" or ".Field") for every
 	// struct field selection the value passes through.
 	Fields bool
@@ -85,6 +88,14 @@ func (s Slicer) Origins(v ssa.Value) []Origin {
 		case *ssa.Const:
 			add(Origin{Kind: "const", V: v, Name: v.String()})
 		case *ssa.Parameter:
+			if s.ParamArgs != nil {
+				if as := s.ParamArgs(v); len(as) > 0 {
+					for _, a := range as {
+						walk(a)
+					}
+					return
+				}
+			}
 			add(Origin{Kind: "param", V: v, Name: v.Name()})
 		case *ssa.Global:
 			add(Origin{Kind: "global", V: v, Name: Short(v.Pkg.Pkg.Path()) + "." + v.Name()})
